@@ -11,6 +11,7 @@ import Driver.DequeDrv
 import Driver.BarrierDrv
 import Driver.LatchDrv
 import Driver.OnceDrv
+import Driver.EraseDrv
 /-! `driver <model>`: reads harness output (cases) on stdin, prints one verdict line per case. -/
 open Driver
 
@@ -29,6 +30,7 @@ def dispatch (model : String) (c : Case) : String :=
   | "latch" => LatchDrv.runCase c
   | "once" => OnceDrv.runCase c
   | "c09l" => if c.get "kind" == "latch" then LatchDrv.runCase c else OnceDrv.runCase c
+  | "erase" => EraseDrv.runCase c
   | _ => s!"case {c.id} reject 0 unknown-model-{model}"
 
 def main (args : List String) : IO UInt32 := do
